@@ -37,14 +37,19 @@ OPTSETS = [
     {"invalid_items": "exclude", "invalid_keys": "exclude", "invalid_values": "exclude"},
     {"invalid_items": "preserve", "invalid_keys": "preserve", "invalid_values": "preserve"},
     {"collect_errors": True, "invalid_items": "exclude"},
+    {"addition": False},
+    {"addition": False, "collect_errors": True},
 ]
-QUICK_OPTS = [0, 2, 3, 4, 6, 7]
+QUICK_OPTS = [0, 2, 3, 4, 6, 7, 9]
+# values that make building an error message fail (repr / str of the offending value)
+HOSTILE_EXTRA = ["BadRepr()", "10**5000", "nested_list(3000)", "BadStr()", "BadEq()"]
 
 
 def spec_universe(tier):
     specs = []
     specs += tg.constrained_specs()
     specs += tg.lax_specs()
+    specs += tg.contains_specs()
     specs += tg.mixed_specs(routes=("cls", "ann") if tier == "thorough" else ("cls",))
     specs += tg.literal_specs()
     specs += tg.SHIPPED
@@ -90,10 +95,71 @@ CHUNK = 6
 def shards(tier):
     specs, leaf = spec_universe(tier)
     allspecs = leaf + specs
-    return [("specs", i, min(i + CHUNK, len(allspecs))) for i in range(0, len(allspecs), CHUNK)]
+    return [("specs", i, min(i + CHUNK, len(allspecs))) for i in range(0, len(allspecs), CHUNK)] + [("extra", "discriminator", 0)]
+
+
+DISCRIMINATOR_SRC = '''
+class Cat(Schema):
+    kind: Literal['cat']
+    n: int
+class Dog(Schema):
+    kind: Literal['dog']
+    n: int = 0
+class Owner(Schema):
+    pet: Union[Cat, Dog] = Field(discriminator='kind')
+    pets: List[Union[Cat, Dog]] = Field(default_factory=list)
+class OwnerD(DataClass):
+    pet: Union[Cat, Dog] = Field(discriminator='kind')
+'''
+DISCRIMINATOR_INPUTS = ["{'pet': {'kind': 'cat', 'n': 1}}", "{'pet': {'kind': 'dog'}}", "{'pet': {'kind': ['v']}}", "{'pet': {'kind': {}}}",
+                        "{'pet': {'kind': BadEq()}}", "{'pet': {'kind': None}}", "{'pet': {}}", "{'pet': 5}", "{'pet': None}",
+                        "{'pet': [('kind', 'cat'), ('n', 1)]}", "{'pet': '{\"kind\": \"cat\", \"n\": 2}'}", "{'pet': 'kind=dog'}",
+                        "{'pet': {'kind': 'cat', 'n': 'x'}}", "{'pet': {'kind': 'bird'}}", "{'pet': BadStr()}", "{'pet': object()}",
+                        "{'pet': [{'kind': 'cat', 'n': 1}]}", "{'pet': {'kind': 'cat', 'n': 1}, 'pets': [{'kind': ['v']}]}",
+                        "{'pet': {'kind': 'cat', 'n': 1}, 'pets': [{'kind': 'dog'}, 5]}", "{'pet': {1: 2}}", "{'pet': self_dict('kind')}"]
+
+
+def _discriminator(acc):
+    from ..universe import _NS
+    env = dict(_NS)
+    env["__name__"] = "utmc.ns"
+    exec(DISCRIMINATOR_SRC, env)
+    for cname in ("Owner", "OwnerD"):
+        for oi, opts in enumerate(OPTSETS[:6]):
+            o = env["Options"](**opts)
+            for vx in DISCRIMINATOR_INPUTS:
+                if cname == "OwnerD" and "pets" in vx:
+                    continue
+                acc.states += 1
+                acc.transitions += 1
+                acc.evaluations += 1
+                st, payload = e1.call_guarded(lambda: env[cname].__from__(ev(vx), options=o), wall_s=1.0, step_budget=400_000)
+                kind, payload = e1.classify(st, payload)
+                acc.outcomes[kind] += 1
+                acc.nontrivial_add((cname, oi, vx))
+                if acc.states % 17 == 0:
+                    acc.sample(dict(decl=cname + " (discriminated union field)", options=opts, input=vx, outcome=kind))
+                if kind in ("value", "perr"):
+                    continue
+                if kind == "nonterm":
+                    fp = f"C04|nonterm|discriminator|{cname}"
+                    msg = f"no result within {payload} line events"
+                else:
+                    site = e1.innermost_utype_frame(payload)
+                    fp = f"C04|escape|{type(payload).__name__}|{site}|discriminator|{cname}"
+                    msg = f"{type(payload).__name__}: {short(payload, 100)} (innermost utype frame {site})"
+                acc.violation(fp, f"{cname} (discriminated union field) opts={opts} input={vx}: {msg}",
+                              "\n".join(["import sys", "sys.path.insert(0, '/verif')", "from utmc.ns import *", DISCRIMINATOR_SRC,
+                                         f"try:\n    print({cname}.__from__({vx}, options=Options(**{opts!r}))); sys.exit(0)",
+                                         "except exc.ParseError as e:\n    print('ParseError', e); sys.exit(0)",
+                                         "except Exception as e:\n    print(type(e).__name__, e); sys.exit(1)"]) + "\n")
 
 
 def run_shard(shard, tier):
+    if shard[0] == "extra":
+        acc = Acc()
+        _discriminator(acc)
+        return acc
     _, lo, hi = shard
     specs, leaf = spec_universe(tier)
     allspecs = (leaf + specs)[lo:hi]
@@ -102,6 +168,16 @@ def run_shard(shard, tier):
     optidx = range(len(OPTSETS)) if tier == "thorough" else QUICK_OPTS
     for sp in allspecs:
         vals = atoms + I.directed_inputs(sp, k=3 if tier == "thorough" else 2)
+        if sp[0] == "dc":
+            # an excess key / a field value that cannot be repr()'d or str()'d
+            f0 = sp[2][0][0]
+            vals = vals + ["{%r: 1, 'zz': %s}" % (f0, h) for h in HOSTILE_EXTRA] + ["{%r: %s}" % (f0, h) for h in HOSTILE_EXTRA]
+        elif sp[0] in ("g", "gc") and sp[1] == "Tuple":
+            vals = vals + ["(1, 2, %s)" % h for h in HOSTILE_EXTRA] + ["(%s,)" % h for h in HOSTILE_EXTRA]
+        elif sp[0] in ("g", "gc"):
+            vals = vals + ["[%s]" % h for h in HOSTILE_EXTRA] + ["{'k': %s}" % h for h in HOSTILE_EXTRA]
+        if sp[0] == "r" and any(c == "contains" for c, _ in sp[2]):
+            vals = vals + ["[float('inf')]", "[10**400]", "[BadStr()]", "[float('nan'), 1]", "['x', 1.5]", "[[1]]"]
         seen_v = set()
         vals = [v for v in vals if not (v in seen_v or seen_v.add(v))]
         for form in forms_for(sp, tier):
